@@ -10,10 +10,10 @@ func init() {
 	core.Register(&core.Spec{
 		ID: "C18", Engine: "k8s", Run: c18Run,
 		QuickRuns: 8000, ThorRuns: 100000, QuickCap: 60 * time.Second, ThorCap: 10 * time.Minute,
-		Rule: "a run drives the real kubernetes ReplicasManager / shard manager against a client-go fake clientset: a quarter of the runs sweep the complete grid old 0..4 x new 0..5 x 0..2 claim templates x deletion flag fault-free (reported as exhaustive sub-sweeps); every run adds 1-6 drawn ChangeScale cases (counts 0..8, 0-3 templates, extra claims above the count, injected API errors on get / update / delete of all or one ordinal's claims, a concurrent writer changing the scale after the manager was created), one Shards() case (0-6 pods in a drawn list order, with/without IP, Ready true/false, extra pods matching the selector, pods of another set) and one Replicas() case (1-3 StatefulSets healthy / rolling update / not all ready, an unselected one); a case is (scale relation, templates, flag, error verb, concurrent?) or (pods, extra, identity order?)",
+		Rule:        "a run drives the real kubernetes ReplicasManager / shard manager against a client-go fake clientset: a quarter of the runs sweep the complete grid old 0..4 x new 0..5 x 0..2 claim templates x deletion flag fault-free (reported as exhaustive sub-sweeps); every run adds 1-6 drawn ChangeScale cases (counts 0..8, 0-3 templates, extra claims above the count, injected API errors on get / update / delete of all or one ordinal's claims, a concurrent writer changing the scale after the manager was created), one Shards() case (0-6 pods in a drawn list order, with/without IP, Ready true/false, extra pods matching the selector, pods of another set) and one Replicas() case (1-3 StatefulSets healthy / rolling update / not all ready, an unselected one); a case is (scale relation, templates, flag, error verb, concurrent?) or (pods, extra, identity order?)",
 		SchedLabels: []string{"fail", "fail_ord", "concurrent", "pod_order", "old", "new", "grid"},
-		Real: []string{"kubernetes.ReplicasManager (Replicas)", "kubernetes shardManager (Shards, ChangeScale)", "shard.Shard (address observed through APIGet)"},
-		Stub: []string{"Kubernetes API server: client-go fake.Clientset with reactors (error injection, drawn pod list order)"},
-		Assume: []string{"readiness of a pod that has an IP but a false Ready condition is not asserted (the statement says 'the right readiness' and the tree treats 'has an IP' as ready)", "the not-ready-for-2-minutes waiting logic of Replicas() is not asserted"},
+		Real:        []string{"kubernetes.ReplicasManager (Replicas)", "kubernetes shardManager (Shards, ChangeScale)", "shard.Shard (address observed through APIGet)"},
+		Stub:        []string{"Kubernetes API server: client-go fake.Clientset with reactors (error injection, drawn pod list order)"},
+		Assume:      []string{"readiness of a pod that has an IP but a false Ready condition is not asserted (the statement says 'the right readiness' and the tree treats 'has an IP' as ready)", "the not-ready-for-2-minutes waiting logic of Replicas() is not asserted"},
 	})
 }
